@@ -1,0 +1,10 @@
+// Copyright The OpenTelemetry Authors
+// SPDX-License-Identifier: Apache-2.0
+
+//go:build !verif
+
+package trace // import "go.opentelemetry.io/otel/sdk/trace"
+
+// verifPoint marks a named synchronisation point. It does nothing unless the
+// package is built with the verif build tag (external verification harnesses).
+func verifPoint(string) {}
